@@ -23,6 +23,7 @@ import vlib, arr, recorder, observer
 from arr import BS, BASE_TIME
 
 DAY = 86400
+MAX_REPORTS = 4          # violations re-recorded and reported in detail per run (further ones are only counted)
 NOGEN = ["-noGenerateSpecTE"]
 
 
@@ -49,8 +50,19 @@ def live_cfg(name, n, persist=False, mutant="none", pct="<- DefaultPct"):
                       'INVARIANT TypeOK\nINVARIANT YoungNotSelected\nPROPERTY Covered\n' % (n, "TRUE" if persist else "FALSE", pct, mutant))
 
 
+def run_tlc_retry(module, **kw):
+    """spec/Array.tla is shared and may be mid-edit by someone else: a parse failure is retried a few times"""
+    for attempt in range(4):
+        r = vlib.run_tlc(module, **kw)
+        if "Parsing or semantic analysis failed" in r.out and attempt < 3:
+            time.sleep(20)
+            continue
+        return r
+    return r
+
+
 def tlc(module, cfg, timeout=1800, workers=16):
-    r = vlib.run_tlc(module, cfg=cfg, workers=workers, timeout=timeout, extra=NOGEN, tag=os.path.basename(cfg))
+    r = run_tlc_retry(module, cfg=cfg, workers=workers, timeout=timeout, extra=NOGEN, tag=os.path.basename(cfg))
     if not r.violated:
         # this TLC words it "Temporal property X was violated" (vlib knows the older wording only)
         m = re.search(r"Temporal property (\S+) was violated", r.out)
@@ -369,6 +381,28 @@ class ScrubRec:
         self.scrub("bad")
         self.scrub("pct", 100, 0)
 
+    def directed_unsynced(self):
+        """differences on stripes of files changed since the last sync are reported but never marked, whether the
+        difference shows in the data (rewritten file) or in the parity (touched file whose stripe has another parity)"""
+        rng = self.rng
+        self.build()
+        st = self.lines[-1]["state"]
+        cands = [(int(d), n, f["bl"][i]["pos"]) for d in st["cf"] for n, f in st["cf"][d].items() for i in range(len(f["bl"]))]
+        d, n, pos = rng.choice(cands)
+        self.a.set_mtime(d, n, self.stamp())
+        self.any("touch %d/%s (unsynced, same data)" % (d, n))
+        l = rng.randrange(self.conf.np)
+        self.a.corrupt_parity(l, pos, rng.choice(["flip", "whole"]))
+        self.any("parity %d@%d differs on the stripe of the touched file" % (l, pos))
+        self.kinds.add("unsynced-parity")
+        self.scrub(rng.choice(["full", "full", "pct"]), 100, 0)
+        self.change_file()
+        self.scrub("full")
+        self.scrub("bad")
+        self.sync(dt=DAY)
+        self.scrub("new")
+        self.scrub("pct", 50, 0)
+
     def close(self):
         self.a.destroy()
 
@@ -380,6 +414,8 @@ def _scenario(job):
         g = ScrubRec(seed, nd, np_, data_seed=data_seed)
         if kind == "bad-cycle":
             g.directed_bad_cycle()
+        elif kind == "unsynced":
+            g.directed_unsynced()
         else:
             g.random_history(nsteps)
         return {"seed": seed, "nd": nd, "np": np_, "kind": kind, "nsteps": nsteps, "lines": g.lines, "vlen": g.rec.vlen,
@@ -412,8 +448,8 @@ def validate(scs, tag):
         path = os.path.join(vlib.OUT, "traces", "%s-%d.ndjson" % (tag, part))
         n = recorder.write_traces(path, [_Rec(s) for s in rest])
         cfg = _cfg("%s-%d" % (tag, part), "SPECIFICATION Spec\nINVARIANT Conforms\nPOSTCONDITION Accepted\nCHECK_DEADLOCK FALSE\n")
-        r = vlib.run_tlc("ScrubPlanTrace", cfg=cfg, workers=1, env={"TRACE": path}, timeout=900, xmx="4g", extra=NOGEN,
-                         tag="%s-%d" % (tag, part))
+        r = run_tlc_retry("ScrubPlanTrace", cfg=cfg, workers=1, env={"TRACE": path}, timeout=900, xmx="4g", extra=NOGEN,
+                          tag="%s-%d" % (tag, part))
         states += r.distinct
         if not r.violated:
             if r.error or r.distinct != n:
@@ -485,7 +521,7 @@ def binding_part(v, tier, cov):
     nrand, nsteps, ndir = (28, 14, 8) if quick else (220, 22, 40)
     for i in range(ndir):
         nd, np_ = shapes[i % len(shapes)]
-        jobs.append((s0 + 500 + i, nd, np_, "bad-cycle", 0, None))
+        jobs.append((s0 + 500 + i, nd, np_, "bad-cycle" if i % 2 == 0 else "unsynced", 0, None))
     for i in range(nrand):
         nd, np_ = shapes[i % len(shapes)]
         jobs.append((s0 + 1000 + i, nd, np_, "random", nsteps, None))
@@ -506,6 +542,9 @@ def binding_part(v, tier, cov):
         for x in f:
             sc = x["scenario"]
             sig = signature(x["diag"])
+            if len(v.violations) >= MAX_REPORTS:
+                cov["findings_not_reconfirmed"] = cov.get("findings_not_reconfirmed", 0) + 1
+                continue
             # a collision of random block contents cannot repeat: re-record with fresh data
             again = _scenario((sc["seed"], sc["nd"], sc["np"], sc["kind"], sc["nsteps"], sc["seed"] + 1000003))
             if again.get("err"):
@@ -563,7 +602,7 @@ def binding_part(v, tier, cov):
                 "scrubs_reporting_errors": errs, "scenarios_with": kinds,
                 "samples": [{"seed": s["seed"], "shape": "%dd/%dp" % (s["nd"], s["np"]), "history": s["kind"], "steps": s["steps"]}
                             for s in scs[:1] + scs[ndir:ndir + 2]]})
-    if nscrub == 0 or marks == 0 or cleared == 0 or plans.get("pct", 0) == 0:
+    if not v.violations and (nscrub == 0 or marks == 0 or cleared == 0 or plans.get("pct", 0) == 0):
         raise vlib.ToolFailure("the histories did not exercise the property (scrubs %d, marks set %d, cleared %d)" % (nscrub, marks, cleared))
     return states
 
